@@ -5,7 +5,7 @@ import vlib
 from vlib import hexs
 from props import c06
 
-REQUIRED = ['plain_identity', 'plain_identity_data', 'qp_body_roundtrip', 'roundtrip_partial']
+REQUIRED = ['plain_identity', 'plain_identity_data', 'qp_body_roundtrip', 'qp_line_rules_full', 'roundtrip_partial']
 
 ASSUMPTIONS = c06.ASSUMPTIONS + [
     'quantifier of the property: declared transfer encoding absent, 7bit, 8bit or binary; at most one Content-Transfer-Encoding field',
